@@ -1330,7 +1330,86 @@ def r10(ctx):
                "a lazily held body would be parsed later with the new offset against bytes framed with the old one")
 
 
+def r12(ctx):
+    """The template parser reads the shipped template file through three regular expressions.  They are constants
+    of the source, the template is a data file: apply each pattern (stdlib `re`, no repository code runs) to every
+    line of its kind and compare the captured groups with an independent whitespace tokenisation of that line."""
+    import os
+    import re as _re
+    from ..tmplmodel import TEMPLATE_REL
+    repo = ctx.repo
+    ctx.rule("C01.R12", "template grammar agreement: MESSAGE_HEADER_RE / BLOCK_HEADER_RE / BLOCK_DATA_RE capture, on every "
+                        "line of message_template.msg of their kind, exactly the tokens an independent tokenisation "
+                        "of that line yields (name, type, size / count / frequency ...)")
+    pc = repo.cls("MessageTemplateParser")
+    pats = {}
+    for name in ("MESSAGE_HEADER_RE", "BLOCK_HEADER_RE", "BLOCK_DATA_RE"):
+        v = repo.class_attr(pc, name)
+        if v is None:
+            v = repo.module_assign(pc.module, name)
+        ctx.require(isinstance(v, ast.Call) and (ap(v.func) or "").endswith("compile") and v.args,
+                    f"C01.R12: MessageTemplateParser.{name} is not a re.compile(<literal>) constant")
+        lit = ConstEval(repo, pc.module).ev(v.args[0])
+        ctx.require(isinstance(lit, str), f"C01.R12: pattern of {name} is not a literal")
+        flags = 0
+        try:
+            pats[name] = _re.compile(lit, flags)
+        except _re.error as e:
+            ctx.ob("C01.R12", f"{name} compiles", False, ctx.w(pc.module, v), f"invalid pattern: {e}")
+            return
+    # which groups the parser takes from each match (read from the _start_new_* methods)
+    used = {}
+    for name, meth in (("MESSAGE_HEADER_RE", "_start_new_template"), ("BLOCK_HEADER_RE", "_start_new_block"),
+                       ("BLOCK_DATA_RE", "_start_new_var")):
+        f = repo.fn(f"MessageTemplateParser.{meth}")
+        gs = sorted({c.args[0].value for c in find_calls(f.node, "group") if c.args and isinstance(c.args[0], ast.Constant)
+                     and isinstance(c.args[0].value, int) and c.args[0].value > 0})
+        ctx.require(bool(gs), f"C01.R12: {meth} reads no match group")
+        used[name] = gs
+    path = os.path.join(repo.root, TEMPLATE_REL)
+    if TEMPLATE_REL in repo.overlay:
+        text = repo.overlay[TEMPLATE_REL]
+    else:
+        with open(path, encoding="utf8", errors="replace") as fh:
+            text = fh.read()
+    depth = 0
+    counts = {"MESSAGE_HEADER_RE": 0, "BLOCK_HEADER_RE": 0, "BLOCK_DATA_RE": 0}
+    bad = {k: [] for k in counts}
+    for ln, line in enumerate(text.splitlines(), 1):
+        code = line.split("//", 1)[0]
+        if not code.strip():
+            continue
+        opens, closes = code.count("{"), code.count("}")
+        d = depth + opens
+        words = code.replace("{", " ").replace("}", " ").split()
+        kind = {1: "MESSAGE_HEADER_RE", 2: "BLOCK_HEADER_RE", 3: "BLOCK_DATA_RE"}.get(d)
+        minw = {1: 5, 2: 2, 3: 2}.get(d, 99)
+        if kind and len(words) >= minw and words[0] != "version":
+            counts[kind] += 1
+            m = pats[kind].match(line)
+            # independent expectation, by group number as the parser uses them
+            if kind == "MESSAGE_HEADER_RE":
+                exp = {1: words[0], 2: words[1], 3: words[2], 4: words[3], 5: words[4], 7: words[5] if len(words) > 5 else None}
+            else:
+                exp = {1: words[0], 2: words[1], 4: words[2] if len(words) > 2 else None}
+            got = {g: (m.group(g) if m and g <= (m.re.groups) else None) for g in used[kind]} if m else None
+            if got is None or any(got.get(g) != exp.get(g) for g in used[kind] if g in exp):
+                bad[kind].append((ln, " ".join(words), got))
+        depth = d - closes
+    tm = parse_template(repo.root, repo.overlay)
+    n_vars = sum(len(b.vars) for m_ in tm.values() for b in m_.blocks)
+    n_blocks = sum(len(m_.blocks) for m_ in tm.values())
+    ctx.require(counts["BLOCK_DATA_RE"] == n_vars and counts["BLOCK_HEADER_RE"] == n_blocks and
+                counts["MESSAGE_HEADER_RE"] == len(tm),
+                f"C01.R12: line classification disagrees with the template model ({counts} vs {len(tm)}/{n_blocks}/{n_vars})")
+    for kind in counts:
+        b = bad[kind]
+        ctx.ob("C01.R12", f"{kind} captures the tokens of every line of its kind", not b, f"{pc.module.rel}:{pc.node.lineno}",
+               f"{len(b)} of {counts[kind]} lines are read differently, e.g. line {b[0][0]} `{b[0][1]}` -> {b[0][2]}" if b else "")
+
+
 def run(ctx):
+    r12(ctx)
     r11(ctx)
     r10(ctx)
     r9(ctx)
